@@ -673,26 +673,15 @@ fn partial_liquidation(
     )
     .unwrap();
 
-    let msg: SubMsg = if current_notional > position.notional {
-        swap_input(
-            &vamm,
-            direction_to_side(position.direction.clone()),
-            position.notional,
-            Uint128::zero(),
-            true,
-            PARTIAL_LIQUIDATION_REPLY_ID,
-        )
-        .unwrap()
-    } else {
-        swap_output(
-            &vamm,
-            direction_to_side(position.direction),
-            partial_position_size,
-            partial_asset_limit,
-            PARTIAL_LIQUIDATION_REPLY_ID,
-        )
-        .unwrap()
-    };
+    // always trade exactly the slice being liquidated
+    let msg: SubMsg = swap_output(
+        &vamm,
+        direction_to_side(position.direction),
+        partial_position_size,
+        partial_asset_limit,
+        PARTIAL_LIQUIDATION_REPLY_ID,
+    )
+    .unwrap();
 
     Ok(msg)
 }
